@@ -734,6 +734,22 @@ def _run(code, filename):
     return out.getvalue()[:5000], (exc, glob), events, timed_out
 
 
+def _nonsplit_zero_width(c):
+    """<=3.9: does co_lnotab have a zero-width entry that is not the continuation of a split line
+    delta (same sign as, and following, a +127 / -128 entry)?"""
+    t = c.co_lnotab
+    prev = None
+    for i in range(0, len(t), 2):
+        bd = t[i]
+        ld = t[i + 1] - 256 if t[i + 1] >= 128 else t[i + 1]
+        if bd == 0 and i > 0:
+            cont = prev in (127, -128) and ld != 0 and (ld > 0) == (prev > 0)
+            if not cont:
+                return True
+        prev = ld
+    return False
+
+
 def _dedup_lines(events):
     out = []
     for e in events:
@@ -807,11 +823,7 @@ def _c05_exec_body(v, code, n):
             # optimizer) open a new line window, so the tracer reports the SAME line twice in a row;
             # normalization drops those entries.  Classified only if that is the whole difference
             # and the original really has such entries.
-            import collections
-            feats = collections.Counter()
-            for _p, c in refs.walk_codes(code):
-                refs.code_features(c, feats)
-            if feats.get("zero_width_entry"):
+            if any(_nonsplit_zero_width(c) for _p, c in refs.walk_codes(code)):
                 sub = "trace_events:repeated_line_event_from_zero_width_entry"
         v.violate("behaviour", sub, "trace events differ at #%d: %r vs %r" % (i, e1[i:i + 2], e2[i:i + 2]))
     nline = sum(1 for e in e1 if e[0] == "line")
